@@ -3,7 +3,8 @@
 //
 // `point(name)` is called in the lock-free gaps of `ActorProperties::wait`
 // (`wait.after_notified`, `wait.after_status`), of `ActorProperties::notify_stop_listener`
-// (`notify.between`) and of `ActorCell::set_status` (`status.after_publish`). It does nothing
+// (`notify.between`), of `ActorCell::set_status` (`status.after_publish`, `cleanup.after_pid`)
+// and of `ActorCell::new` (`new.after_name`, between the name and the pid registration). It does nothing
 // unless a harness installed a callback with `set_point_hook`; the callback may park the
 // calling thread to realise a chosen interleaving. No logic of the library lives here.
 
